@@ -9,6 +9,7 @@ import Qfx.Lemmas.CodecBody
 import Qfx.Lemmas.CodecXml
 import Qfx.Lemmas.CodecDictSegs
 import Qfx.Lemmas.CodecDictStack
+import Qfx.Lemmas.CodecDictNest
 import Qfx.Lemmas.CodecDictExample
 open Qfx Qfx.Spec
 
@@ -279,8 +280,33 @@ theorem C11_faithful_dict_groups_anydepth (d : Dicts) (mt : Bytes) (fs : List DN
         (t8 :: t9 :: t35 :: (A.flatMap Seg.flat ++ (s.pre ++ s.g0 :: s.M))).length = 0 := by simp; omega
     rw [this]; rfl
 
+/-- THE SAME WITH THE RUNS DESCRIBED FROM THE DICTIONARY ALONE (`SegNested`): the member fields of every group are WELL NESTED w.r.t. the
+    dictionary (`GroupWalk`: leaf members of the level, count fields of groups nested in it each followed by a well-nested sequence for
+    that group — entries, delimiters and member order are free), the dictionary tree under the group lists no tag at two levels of one
+    branch and none that is a header / trailer field or a top-level group (`TreeOK`), and the field behind the group is listed nowhere in
+    that tree.  No reference to the parser's stack moves: `groupWalk_walkN` shows the fixed `parseGroup` walks such a sequence along
+    its nesting. -/
+theorem C11_faithful_dict_wellnested (d : Dicts) (mt : Bytes) (fs : List DNode) (ha : AppMsg d mt fs)
+    (t8 t9 t35 t10 : TagValue) (segs : List Seg) (post : List TagValue)
+    (hw8 : IsWire t8) (hw9 : IsWire t9) (hw35 : IsWire t35) (hw10 : IsWire t10)
+    (h8 : t8.tag = 8) (h9 : t9.tag = 9) (h35 : t35.tag = 35) (h10 : t10.tag = 10) (hv : t35.value = mt)
+    (hsegs : ∀ s ∈ segs, SegNested d fs s) (hpost : PlainFields d post)
+    (hng10 : NoGroupTag d 10) (hh10 : isHeaderField d 10 = false)
+    (hbl : atoi t9.value = .ok ((fieldsLength (t8 :: t9 :: t35 :: (segs.flatMap Seg.flat ++ (post ++ [t10]))) : Nat) : Int)) :
+    ∃ m, parseMessage Fixes.cur d (wireOf (t8 :: t9 :: t35 :: (segs.flatMap Seg.flat ++ (post ++ [t10])))) = .ok m ∧
+      m.fields = t8 :: t9 :: t35 :: (segs.flatMap Seg.flat ++ (post ++ [t10])) ∧
+      m.bytes Fixes.cur = .ok (wireOf (t8 :: t9 :: t35 :: (segs.flatMap Seg.flat ++ (post ++ [t10]))), m) ∧
+      (∀ (A : List Seg) (s : Seg) (B : List Seg), segs = A ++ s :: B →
+        (∀ tv ∈ s.z0 :: (B.flatMap Seg.adds ++ post), tv.tag ≠ s.g0.tag) →
+        ∃ f, alFind m.body.lookup s.g0.tag = some f ∧ f.items m.fields = s.g0 :: s.M) ∧
+      (∀ (A : List Seg) (s : Seg) (B : List Seg), segs = A ++ s :: B →
+        (∀ tv ∈ B.flatMap Seg.adds ++ post, tv.tag ≠ s.z0.tag) → m.body.getBytes m.fields s.z0.tag = .ok s.z0.value) :=
+  C11_faithful_dict_groups_anydepth d mt fs ha t8 t9 t35 t10 segs post hw8 hw9 hw35 hw10 h8 h9 h35 h10 hv
+    (fun s hs => (hsegs s hs).ok) hpost hng10 hh10 hbl
+
 /-! non-vacuity of `SegOKN` (three nesting levels, a pop over two levels): Qfx/Lemmas/CodecDictExample.lean -/
 example := @exSegOKN
+example := @exSegNested
 
 /-! non-vacuity of `SegOK` (a run with a two-entry NoPartyIDs group, nested NoPartySubIDs): Qfx/Lemmas/CodecDictExample.lean -/
 example := @exSegOK
@@ -390,7 +416,7 @@ example : (extractField [56, 61, 70, 1, 57, 61, 53, 1]).1 = [57, 61, 53, 1] := b
         C11_retrievable_nodict; app / transport+app dictionaries, messages without dictionary groups: C11_faithful_dict_nogroups;
         XMLData with its length (any dictionaries without groups): C11_faithful_xml; any number of dictionary groups with up to two
         nesting levels, plain fields between: C11_faithful_dict_groups (one group: C13_dict_flat_group_*, C13_dict_depth2_group_*);
-        any nesting depth: C11_faithful_dict_groups_anydepth; groups directly adjacent / directly followed by a header or trailer
+        any nesting depth: C11_faithful_dict_wellnested (runs described from the dictionary alone), C11_faithful_dict_groups_anydepth; groups directly adjacent / directly followed by a header or trailer
         field: C11_faithful_full, C11_retrievable_full (monitor)
         (monitor clauses accepts_wf, fields_faithful, parsed_sections, retrievable, raw_unchanged); field slicing: C11_extractField_slices
    "first three fields are not 8, 9, 35 … rejected"                                          C11_rejects_order
